@@ -12,6 +12,7 @@ from ..core import Ctx, Outcome, Violation
 
 ID = "C10"
 LEVEL = "proof"
+EXTRA_TARGETS = ["MG.DriverEng"]
 THEOREMS = {
     "MG.Proofs.C10": [
         "MG.C10.op_constant_rule",
